@@ -14,7 +14,7 @@ ASSUME = c02.ASSUME[:4] + [
     "ASAP bound recomputed from observed predecessor dates; ALAP deadline = own/inherited end, else earliest successor start minus gap, else observed project end",
 ]
 
-PATTERNS = ["one20", "one90", "one600", "chain", "indep", "fork", "prio", "team", "gapchain", "nestends"]
+PATTERNS = ["one20", "one90", "one600", "chain", "indep", "fork", "prio", "team", "gapchain", "nestends", "mid10", "mid25", "mid40", "mid50"]
 
 
 def universe(tier):
@@ -69,6 +69,10 @@ def to_spec(it):
         tasks = [T("a", 90), T("b", 60, deps=["a"]), T("c", 150, deps=["a"])]
     elif pat == "prio":
         tasks = [T("a", 150, prio=300), T("b", 90, prio=700), T("c", 20, prio=500)]
+    elif pat.startswith("mid"):
+        # the dependency bound lies m minutes past the hour (a predecessor of m minutes on the other resource): inside a slot, and for
+        # sub-hour resolutions not in the first slot of its clock hour; a lower-priority task on the same resource follows
+        tasks = [{"id": "p", "effort": int(pat[3:]), "alloc": ["r2"]}, T("a", 90, deps=["p"]), T("low", 60, prio=300)]
     elif pat == "gapchain":
         # successor on another resource, gap that is not a multiple of the slot: the predecessor's deadline falls inside a slot
         tasks = [T("a", 150), {"id": "b", "effort": 90, "alloc": ["r2"], "deps": [{"ref": "a", "gap": "90min" if L == 60 else "50min"}]}]
